@@ -17,7 +17,8 @@
    The model is the code as repaired by fixes_pending/C06-deque-wakeups.diff:
    waitPop pops first and waits (on the root) only when that pop failed. *)
 From FunV Require Import Base.Tac.
-From Coq Require Import Floats.
+From Coq Require Import PrimFloat.
+From Coq Require Uint63.
 Local Open Scope Z_scope.
 
 (* ------------------------------------------------------------------ errors *)
